@@ -39,8 +39,10 @@ def gen_spec(rng, n_classes, order, unknown=False):
     sig_a = [["x", "int"]]
     sig_b = [["x", "int"], ["label", "str"]]
     classes = []
+    same_names = rng.random() < 0.5
     for i in range(n_classes):
-        classes.append((f"gm{i % 2}", f"K{i}", sig_a if i < max(2, n_classes - 1) else sig_b))
+        # the same class NAME may occur in both modules (gm0.K0 and gm1.K0 are different classes with different tags)
+        classes.append((f"gm{i % 2}", f"K{i // 2}" if same_names else f"K{i}", sig_a if i < max(2, n_classes - 1) else sig_b))
     modules = {}
     for m, c, f in classes:
         modules.setdefault(m, []).append([c, f])
